@@ -172,31 +172,8 @@ class RegExp:
         Returns:
             True if there's a match, False otherwise
         """
-        vm = self._create_vm()
-
-        if self._sticky:
-            result = vm.match(string, self.lastIndex)
-            if result:
-                if self._global:
-                    self.lastIndex = (
-                        result.index + len(result[0]) if result[0] else result.index
-                    )
-                return True
-            if self._global:
-                self.lastIndex = 0
-            return False
-
-        result = vm.search(string, self.lastIndex if self._global else 0)
-        if result:
-            if self._global:
-                self.lastIndex = (
-                    result.index + len(result[0]) if result[0] else result.index + 1
-                )
-            return True
-
-        if self._global:
-            self.lastIndex = 0
-        return False
+        # RegExp.prototype.test is exec() != null, including the lastIndex protocol
+        return self.exec(string) is not None
 
     def exec(self, string: str) -> Optional[MatchResult]:
         """
@@ -222,6 +199,11 @@ class RegExp:
         else:
             start_pos = self.lastIndex if (self._global or self._sticky) else 0
 
+        # A lastIndex beyond the end fails (and resets) without trying to match
+        if start_pos > len(string):
+            self.lastIndex = 0
+            return None
+
         if self._sticky:
             result = vm.match(string, start_pos)
             if result:
@@ -242,9 +224,8 @@ class RegExp:
 
         if result:
             if self._global:
-                end_cp = (
-                    result.index + len(result[0]) if result[0] else result.index + 1
-                )
+                # lastIndex is the end of the match, also for an empty match
+                end_cp = result.index + len(result[0] or "")
                 if self._unicode:
                     self.lastIndex = _codepoint_to_utf16_index(string, end_cp)
                 else:
